@@ -101,6 +101,17 @@ theorem window_cap (rules : List Rule) (t0 : Nat) (as : List Arrival) (hm : Mono
   obtain ⟨l, cp⟩ := refRun_capped (Capped.nil RuleInfo.feed (compile rules) t0) as hm
   exact cp.cap c hc hown e
 
+/-- the cap read off the **model's** counter: in every reachable state, at every later instant, the window sum
+the controller reads from its leap array (`readOnlyMetric.GetSum(pass)`) does not exceed the threshold. -/
+theorem window_cap_model (rules : List Rule) (t0 : Nat) (h0 : 0 < t0) (as : List Arrival) (hm : MonoA t0 as)
+    (now : Nat) (hle : ∀ x ∈ as, x.t ≤ now) (hle0 : t0 ≤ now)
+    (c : Ctrl) (hc : c ∈ (runEntries (load rules t0) as).1.ctrls) (hown : c.info.feed = c.rule.res) :
+    c.rule.thr.exceeds (c.cur (runEntries (load rules t0) as).1.nodes now) = false := by
+  obtain ⟨l, hl, _, rep⟩ := runEntries_rep_le (load_rep rules t0 h0) h0 now hle0 as hm hle
+  rw [rep.cur_eq hl c hc, hown]
+  have hci : c.info ∈ compile rules := by rw [← rep.shape]; exact List.mem_map_of_mem hc
+  exact window_cap rules t0 as hm c.info hci hown (cbs c.info.L now)
+
 /-- **blocked requests consume nothing**: a blocked entry leaves every later decision of every later
 history unchanged (the state it leaves behind is indistinguishable from the one it found). -/
 theorem blocked_consumes_nothing {infos : List RuleInfo} {s : St} {H : List Arrival} {latest : Nat}
